@@ -283,6 +283,9 @@ theorem C12_failed_op_changes_nothing (s : State) (op : Op) (e : PyExc)
   | enumClasses cn d f => simp only [step]; split <;> rfl
   | supers n => simp only [step]; split <;> rfl
   | enumInsts n => simp only [step]; split <;> rfl
+  | addDecl d => simp only [step] at h ⊢; split <;> simp_all
+  | mofCreate c => simp only [step] at h ⊢; split <;> simp_all
+  | isSub k sup => simp only [step]; split <;> rfl
 
 /-- GetClass, the enumerations and `_get_superclass_names` never change the repository -/
 theorem C12_queries_change_nothing (s : State) :
